@@ -1,0 +1,222 @@
+//! Verification-only accessors (cargo feature `verif-hooks`).
+//!
+//! Thin wrappers that call the real internals and contain no logic of their own. They exist so
+//! that an external harness can reach (a) the pure counter / lifetime arithmetic without
+//! generating Merkle trees, (b) the Winternitz digit encoding, and (c) populated instances of the
+//! secret-bearing types. Nothing here is compiled without the feature.
+
+use tinyvec::ArrayVec;
+
+use crate::{
+    constants::{
+        LmsLeafIdentifier, LmsTreeIdentifier, Node, MAX_ALLOWED_HSS_LEVELS,
+        MAX_NUM_WINTERNITZ_CHAINS, REF_IMPL_MAX_PRIVATE_KEY_SIZE, TREE_HEIGHTS,
+        WINTERNITZ_PARAMETERS,
+    },
+    hasher::HashChain,
+    hss::definitions::HssPrivateKey,
+    util::coef::coef,
+    HssParameter, LmotsAlgorithm, LmsAlgorithm,
+};
+
+pub use crate::hss::reference_impl_private_key::{
+    ReferenceImplPrivateKey, Seed, SeedAndLmsTreeIdentifier,
+};
+pub use crate::lm_ots::definitions::LmotsPrivateKey;
+pub use crate::lms::definitions::LmsPrivateKey;
+
+/// (MAX_ALLOWED_HSS_LEVELS, TREE_HEIGHTS, WINTERNITZ_PARAMETERS) this build was configured with.
+pub fn build_limits() -> (usize, &'static [usize], &'static [usize]) {
+    (
+        MAX_ALLOWED_HSS_LEVELS,
+        &TREE_HEIGHTS[..],
+        &WINTERNITZ_PARAMETERS[..],
+    )
+}
+
+fn seed_from<H: HashChain>(bytes: &[u8]) -> Seed<H> {
+    let mut seed = Seed::<H>::default();
+    seed.as_mut_slice().copy_from_slice(bytes);
+    seed
+}
+
+fn reference_key<H: HashChain>(
+    lms_types: &[u32],
+    counter: u64,
+    seed: &[u8],
+) -> Option<ReferenceImplPrivateKey<H>> {
+    if lms_types.is_empty() || lms_types.len() > MAX_ALLOWED_HSS_LEVELS {
+        return None;
+    }
+    let mut blob: ArrayVec<[u8; REF_IMPL_MAX_PRIVATE_KEY_SIZE]> = ArrayVec::new();
+    blob.extend_from_slice(&counter.to_be_bytes());
+    for level in 0..MAX_ALLOWED_HSS_LEVELS {
+        match lms_types.get(level) {
+            // Winternitz code 4 (W8); irrelevant for the counter arithmetic
+            Some(lms_type) => blob.push(((*lms_type as u8) << 4) | 4),
+            None => blob.push(0xff),
+        }
+    }
+    blob.extend_from_slice(seed);
+    ReferenceImplPrivateKey::<H>::from_binary_representation(blob.as_slice()).ok()
+}
+
+/// An `HssPrivateKey` whose per-level `used_leafs_index` / parameters are filled exactly as
+/// `HssPrivateKey::from` fills them, but without generating any tree or signature.
+fn skeleton_key<H: HashChain>(key: &ReferenceImplPrivateKey<H>) -> Option<HssPrivateKey<H>> {
+    let parameters = key.compressed_parameter.to::<H>().ok()?;
+    let used_leafs_indexes = key.compressed_used_leafs_indexes.to(&parameters);
+    let mut result = HssPrivateKey::<H>::default();
+    for (i, parameter) in parameters.iter().enumerate() {
+        result.private_key.push(LmsPrivateKey::new(
+            key.seed.clone(),
+            LmsTreeIdentifier::default(),
+            used_leafs_indexes[i],
+            *parameter.get_lmots_parameter(),
+            *parameter.get_lms_parameter(),
+        ));
+    }
+    Some(result)
+}
+
+/// `CompressedUsedLeafsIndexes::to` for a key with the given per-level LMS type codes.
+pub fn leaf_indices<H: HashChain>(
+    lms_types: &[u32],
+    counter: u64,
+) -> Option<([u32; MAX_ALLOWED_HSS_LEVELS], usize)> {
+    let seed = [0x5au8; 32];
+    let key = reference_key::<H>(lms_types, counter, &seed[..H::OUTPUT_SIZE as usize])?;
+    let parameters = key.compressed_parameter.to::<H>().ok()?;
+    Some((
+        key.compressed_used_leafs_indexes.to(&parameters),
+        parameters.len(),
+    ))
+}
+
+/// `ReferenceImplPrivateKey::increment` (including the wipe on exhaustion); returns the
+/// serialised successor key.
+pub fn increment<H: HashChain>(
+    lms_types: &[u32],
+    counter: u64,
+    seed: &[u8],
+) -> Option<ArrayVec<[u8; REF_IMPL_MAX_PRIVATE_KEY_SIZE]>> {
+    let mut key = reference_key::<H>(lms_types, counter, seed)?;
+    let skeleton = skeleton_key(&key)?;
+    key.increment(&skeleton);
+    Some(key.to_binary_representation())
+}
+
+/// `HssPrivateKey::get_lifetime` on the skeleton key.
+pub fn lifetime<H: HashChain>(lms_types: &[u32], counter: u64) -> Option<u64> {
+    let seed = [0x5au8; 32];
+    let key = reference_key::<H>(lms_types, counter, &seed[..H::OUTPUT_SIZE as usize])?;
+    let skeleton = skeleton_key(&key)?;
+    Some(skeleton.get_lifetime())
+}
+
+/// The digit vector (message digits followed by checksum digits) that LM-OTS signing and
+/// verification use for `digest`: `append_checksum_to` + `coef`, exactly as
+/// `LmotsSignature::calculate_signature` and `lm_ots::verify::generate_public_key_candidate` do.
+pub fn lmots_digits<H: HashChain>(
+    lmots_type: u32,
+    digest: &[u8],
+) -> Option<ArrayVec<[u8; MAX_NUM_WINTERNITZ_CHAINS]>> {
+    let parameter = LmotsAlgorithm::get_from_type::<H>(lmots_type)?;
+    if digest.len() != parameter.get_hash_function_output_size() {
+        return None;
+    }
+    let with_checksum = parameter.append_checksum_to(digest);
+    let mut result = ArrayVec::new();
+    for i in 0..parameter.get_num_winternitz_chains() {
+        result.push(coef(with_checksum.as_slice(), i, parameter.get_winternitz()) as u8);
+    }
+    Some(result)
+}
+
+/// (n, w, p, ls) of an LM-OTS type code as the library tabulates them.
+pub fn lmots_parameters<H: HashChain>(lmots_type: u32) -> Option<(usize, u8, u16, u8)> {
+    let parameter = LmotsAlgorithm::get_from_type::<H>(lmots_type)?;
+    Some((
+        parameter.get_hash_function_output_size(),
+        parameter.get_winternitz(),
+        parameter.get_num_winternitz_chains(),
+        parameter.get_checksum_left_shift(),
+    ))
+}
+
+// Factories for populated instances of the secret-bearing types.
+
+pub fn make_seed<H: HashChain>(seed: &[u8]) -> Seed<H> {
+    seed_from(seed)
+}
+
+pub fn make_seed_and_lms_tree_identifier<H: HashChain>(
+    seed: &[u8],
+    lms_tree_identifier: &LmsTreeIdentifier,
+) -> SeedAndLmsTreeIdentifier<H> {
+    SeedAndLmsTreeIdentifier::new(&seed_from(seed), lms_tree_identifier)
+}
+
+pub fn make_reference_impl_private_key<H: HashChain>(
+    parameters: &[HssParameter<H>],
+    seed: &[u8],
+) -> Option<ReferenceImplPrivateKey<H>> {
+    ReferenceImplPrivateKey::generate(parameters, &seed_from(seed)).ok()
+}
+
+pub fn make_lms_private_key<H: HashChain>(
+    seed: &[u8],
+    lms_tree_identifier: &LmsTreeIdentifier,
+    used_leafs_index: u32,
+    lmots: LmotsAlgorithm,
+    lms: LmsAlgorithm,
+) -> Option<LmsPrivateKey<H>> {
+    Some(LmsPrivateKey::new(
+        seed_from(seed),
+        *lms_tree_identifier,
+        used_leafs_index,
+        lmots.construct_parameter()?,
+        lms.construct_parameter()?,
+    ))
+}
+
+/// An `LmotsPrivateKey` holding caller-supplied chain start values (`chains[i]`, each of the hash
+/// output length); `chains.len()` must not exceed the chain count of `lmots`.
+pub fn make_lmots_private_key<H: HashChain>(
+    lms_tree_identifier: &LmsTreeIdentifier,
+    lms_leaf_identifier: LmsLeafIdentifier,
+    chains: &[&[u8]],
+    lmots: LmotsAlgorithm,
+) -> Option<LmotsPrivateKey<H>> {
+    let parameter = lmots.construct_parameter::<H>()?;
+    if chains.len() > parameter.get_num_winternitz_chains() as usize {
+        return None;
+    }
+    let mut key: ArrayVec<[Node; MAX_NUM_WINTERNITZ_CHAINS]> = ArrayVec::new();
+    for chain in chains {
+        let mut node = Node::new();
+        node.extend_from_slice(chain);
+        key.push(node);
+    }
+    Some(LmotsPrivateKey::new(
+        *lms_tree_identifier,
+        lms_leaf_identifier,
+        key,
+        parameter,
+    ))
+}
+
+/// The real one-time key derivation, so the harness can also observe a derived key being wiped.
+pub fn derive_lmots_private_key<H: HashChain>(
+    lms_tree_identifier: &LmsTreeIdentifier,
+    lms_leaf_identifier: LmsLeafIdentifier,
+    seed: &[u8],
+    lmots: LmotsAlgorithm,
+) -> Option<LmotsPrivateKey<H>> {
+    Some(crate::lm_ots::keygen::generate_private_key(
+        *lms_tree_identifier,
+        lms_leaf_identifier,
+        seed_from(seed),
+        lmots.construct_parameter()?,
+    ))
+}
